@@ -37,7 +37,8 @@ NativeOK(a, op, v, n, o) ==
     [] op = "redelegate" -> /\ Target(v) \in V /\ n > 0 /\ del[a][Target(v)] >= n
                             /\ ~(\E r \in redel[a] : r[2] = Target(v))
     [] op = "vote"       -> active /\ o \in 1..4
-    (* weighted vote: one option with the whole weight (o in 1..4) or options 1 and 2 with half each (o = 12) *)
+    (* weighted vote: one option with the whole weight (o in 1..4) or options 1 and 2 with half each (o = 12); 31 and 32  *)
+    (* stand for a single option with a weight of 30% resp. 250%: the weights do not add up to 1, the native vote fails    *)
     [] op = "votew"      -> active /\ o \in (1..4) \cup {12}
     [] OTHER -> FALSE
 (* result of the EVM transaction *)
@@ -73,8 +74,8 @@ Res(ok) == IF ok THEN "ok" ELSE "err"
 Next0 ==
   \/ \E p \in Paths, op \in Ops, v \in Vals, n \in Amts, o \in Options :
        TxEff(p, op, v, n, o) /\ last' = [act |-> "Tx", res |-> Res(TxOK(p, op, v, n, o)), path |-> p, op |-> op, val |-> v, amt |-> n, opt |-> o]
-  \/ \E v \in {"valid", "unknown"}, o1 \in Options, o2 \in Options :
-       Tx2Eff(v, o1, o2) /\ last' = [act |-> "Tx2", res |-> Res(Tx2OK(v, o1, o2)), val |-> v, opt |-> o1, opt2 |-> o2]
+  \/ \E v \in {"valid", "unknown"}, o1 \in Options, o2 \in Options, k2 \in {"plain", "weighted"} :     \* k2: the second vote is a plain or a weighted one (two kinds of event in one receipt)
+       Tx2Eff(v, o1, o2) /\ last' = [act |-> "Tx2", res |-> Res(Tx2OK(v, o1, o2)), val |-> v, opt |-> o1, opt2 |-> o2, kind2 |-> k2]
   \/ ExpireEff /\ last' = [act |-> "Expire", res |-> "ok"]
   \/ SlashEff /\ last' = [act |-> "Slash", res |-> "ok"]
 Next == ~slashed /\ Next0
